@@ -432,18 +432,18 @@ Qed.
 Lemma service_entries_sound prefix keys svcs : forall ls x,
   service_entries prefix keys svcs = Ok ls -> In x ls ->
   exists e, In e svcs /\ In x (e_cmds e) /\ In (inst_key (e_node e) (e_sid e)) keys
-            /\ length (e_cmds e) = length (route_tags prefix (e_tags e)).
+            /\ (length (e_cmds e) <= length (route_tags prefix (e_tags e)))%nat.
 Proof.
   induction svcs as [|e svcs IH]; intros ls x; cbn [service_entries].
   - intros H Hx. inversion H; subst. destruct Hx.
   - destruct (service_entries prefix keys svcs) as [rest| |] eqn:Er; cbn [bind]; try discriminate.
     destruct (existsb (key_eqb (inst_key (e_node e) (e_sid e))) keys) eqn:Ek.
-    + unfold entry_cmds. destruct (Nat.eqb (length (e_cmds e)) (length (route_tags prefix (e_tags e)))) eqn:El;
+    + unfold entry_cmds. destruct (Nat.leb (length (e_cmds e)) (length (route_tags prefix (e_tags e)))) eqn:El;
         cbn [bind]; [|discriminate].
       intros H Hx. inversion H; subst. apply in_app_or in Hx as [Hx|Hx].
       * exists e. split; [now left|]. split; [exact Hx|]. split.
         -- apply existsb_exists in Ek as [k [Hk Hb]]. apply key_eqb_eq in Hb. now subst.
-        -- now apply PeanoNat.Nat.eqb_eq.
+        -- now apply PeanoNat.Nat.leb_le.
       * destruct (IH rest x eq_refl Hx) as [e' [Hin R]]. exists e'. split; [now right | exact R].
     + intros H Hx. inversion H; subst. destruct (IH ls x eq_refl Hx) as [e' [Hin R]].
       exists e'. split; [now right | exact R].
@@ -453,7 +453,7 @@ Lemma all_configs_sound prefix catalog m : forall ls x,
   all_configs prefix catalog m = Ok ls -> In x ls ->
   exists name keys e, In (name, keys) m /\ name <> [] /\ In e catalog /\ e_sname e = name /\
                       In x (e_cmds e) /\ In (inst_key (e_node e) (e_sid e)) keys
-                      /\ length (e_cmds e) = length (route_tags prefix (e_tags e)).
+                      /\ (length (e_cmds e) <= length (route_tags prefix (e_tags e)))%nat.
 Proof.
   induction m as [|[name keys] m IH]; intros ls x; cbn [all_configs].
   - intros H Hx. inversion H; subst. destruct Hx.
@@ -477,7 +477,7 @@ Theorem config_lines_sound prefix catalog passing ls x :
   exists e svc, In e catalog /\ In x (e_cmds e) /\ In svc passing /\
                 e_sname e = c_sname svc /\ e_sname e <> [] /\
                 inst_key (e_node e) (e_sid e) = inst_key (c_node svc) (c_sid svc) /\
-                length (e_cmds e) = length (route_tags prefix (e_tags e)).
+                (length (e_cmds e) <= length (route_tags prefix (e_tags e)))%nat.
 Proof.
   unfold config_lines, group. intros H Hx.
   destruct (all_configs_sound _ _ _ _ _ H Hx) as [name [keys [e [Hm [Hne [He [Hn [Hc [Hk Hl]]]]]]]]].
@@ -592,7 +592,7 @@ Proof.
   - assert (existsb (key_eqb (inst_key (e_node e0) (e_sid e0))) keys = true) as Ek.
     { apply existsb_exists. exists (inst_key (e_node e0) (e_sid e0)). split; [exact Hk | apply key_eqb_refl]. }
     rewrite Ek in H. unfold entry_cmds in H.
-    destruct (Nat.eqb (length (e_cmds e0)) (length (route_tags prefix (e_tags e0)))); cbn [bind] in H; [|discriminate].
+    destruct (Nat.leb (length (e_cmds e0)) (length (route_tags prefix (e_tags e0)))); cbn [bind] in H; [|discriminate].
     inversion H; subst. apply in_or_app. now left.
   - specialize (IH rest e x eq_refl Hin Hk Hx).
     destruct (existsb (key_eqb (inst_key (e_node e0) (e_sid e0))) keys).
